@@ -193,3 +193,37 @@ PLAN["C17"] = {
                  ("rel", "c17.v3.allpairs"), ("asan", "c17.v3.apply2"), ("asan", "c17.v3.allfn")],
     "require": {"all": ["apply1", "apply2", "apply3", "depth2", "project", "rename", "extend", "prefix", "getpaths"]},
 }
+
+PLAN["C18"] = {
+    "level": "model_checking", "engine": "E-HIST",
+    "rule": "3 handle slots of OndriksMTBDD<int>, 2 variables, values {0,1}; menu of 195 operations: construct(slot, asgn in {0,1,X}^2, value, default), const, copy-construct, assign (incl. "
+            "self-assignment), apply2 (or / xor; the result may be assigned over an operand), apply1, destroy. Breadth-first search until NO NEW STATE appears (c18.sat: all 33^3 = 35937 "
+            "abstract states, depth 8). In every state: every live handle returns its reference function for all 4 assignments; operator== iff equal tables; the whole node store is walked "
+            "(both unique tables read with -fno-access-control): every table entry consistent, every child/root present in a table, reference count of every stored node = #stored parents + "
+            "#live roots; and from EVERY state the probe 'destroy all remaining handles' must bring both unique tables back to their baseline sizes. Re-run under ASan+UBSan",
+    "assumptions": HIST_ASSUMPTIONS + ["Project/Rename are excluded from the leak probe on purpose: the statement restricts it to construction, copy and apply"],
+    "claim": "Every reachable state of the 3-handle / 2-variable world (saturated search), all invariants in every state, the leak probe from every state, also under AddressSanitizer.",
+    "technique": "explicit-state breadth-first search over MTBDD handle histories to saturation, node-store invariants in every state, under ASan",
+    "quick": [("rel", "c18.sat"), ("asan", "c18.d4")],
+    "thorough": [("rel", "c18.sat"), ("asan", "c18.sat")],
+    "require": {"all": ["transitions_into_sharing_states"]},
+}
+
+PLAN["C11"] = {
+    "level": "model_checking", "engine": "E-HIST",
+    "rule": "tree world: 3 slots of ExplicitTreeAut, menu of ~300 operations: new, copy-construct (full / without transitions / without finals), copy-assign (incl. self), move-construct, "
+            "move-assign, AddTransition (4 rules colliding on parent/symbol/tuple), SetStateFinal, EraseFinalStates, Clear, destroy, AreTransitionsEmpty, and result-producing operations "
+            "stored into any slot (also over an operand): RemoveUnreachableStates, RemoveUselessStates, Reduce, GetCandidateTree, CollapseStates, ReindexStates, ReindexStates INTO an "
+            "existing destination, TranslateSymbols, UnionDisjointStates (only when the reference says the state sets are disjoint), Union, Intersection, IntersectionBU; breadth-first "
+            "from the empty world and from a non-initial state with two handles sharing all storage. NFA world: 4 slots of ExplicitFiniteAut (2 operands over fixed disjoint state ranges, 2 "
+            "result slots). In every state: every live handle reads exactly its reference value (rules+finals by iteration); each result satisfies its semantic relation to the operand "
+            "values; IsLangEmpty / Reduce sizes / CheckInclusion (up, down) of all slot pairs are recorded and must coincide whenever the same abstract values are reached by another "
+            "history; after destroying everything the process-wide tuple cache must be empty. Results beyond 6 states / 10 rules leave the explored world (op not offered)",
+    "assumptions": HIST_ASSUMPTIONS + ["a moved-from handle is dead: only destroy is offered on it (the library asserts non-null cores on every other use)",
+                                       "all automata use the process-wide default alphabet with pre-agreed integer symbols; the alphabet is constant during a history"],
+    "claim": "All operation histories up to the stated depth over several live automata that really share storage (sharing pattern is part of the state key), all invariants in every state.",
+    "technique": "explicit-state breadth-first search over operation histories of several real automata handles, value-semantics invariants in every state",
+    "quick": [("rel", "c11.tree.d5"), ("rel", "c11.tree.seeded.d3"), ("rel", "c11.fa.d6")],
+    "thorough": [("rel", "c11.tree.d6"), ("rel", "c11.tree.seeded.d4"), ("rel", "c11.fa.d7"), ("asan", "c11.tree.d4"), ("asan", "c11.fa.d5")],
+    "require": {"all": ["transitions_into_sharing_states"]},
+}
